@@ -71,8 +71,14 @@ func dispatch(prop string) *RunResult {
 		return runC05()
 	case "C06":
 		return runC06()
+	case "C07":
+		return runC07()
+	case "C13":
+		return runC13()
 	case "C14":
 		return runC14()
+	case "C19":
+		return runC19()
 	}
 	panic("unknown property " + prop)
 }
@@ -89,7 +95,9 @@ func main() {
 	nsamples := flag.Int("samples", 2, "runs to write out in the summary")
 	digests := flag.Bool("digests", false, "emit per-run digests in the summary")
 	tierF := flag.String("tier", "quick", "quick|thorough")
-	solo := flag.String("oneshot", "", "pristine one-shot: JSON file with a corpus item; prints its outcome")
+	oneshotItem := flag.Int("oneshot-item", -1, "C19: execute this corpus item as the first library call of the process and print its outcome")
+	emitC := flag.Bool("emit-corpus", false, "C19: print the corpus")
+	expectFile := flag.String("expect", "", "C19: JSON array of fresh-process outcomes, one per corpus item")
 	flag.Parse()
 	tier = *tierF
 	out := bufio.NewWriterSize(os.Stdout, 1<<16)
@@ -97,11 +105,18 @@ func main() {
 	enc := json.NewEncoder(out)
 	initReDoc()
 
-	if *solo != "" {
-		oneshot(*solo, enc)
+	if *oneshotItem >= 0 {
+		oneshot(*seed, *oneshotItem, enc)
+		return
+	}
+	if *emitC {
+		emitCorpus(*seed, enc)
 		return
 	}
 	initReFn()
+	if *prop == "C19" {
+		loadC19(*seed, *expectFile)
+	}
 
 	if *tapeFile != "" {
 		b, err := os.ReadFile(*tapeFile)
